@@ -59,6 +59,13 @@ IWPClosed == (Kind = "iwp" /\ ~VaryParams /\ k > 0 /\ steps[1].asp = Z(0)) =>
                \A b \in 1..(k + 1) : LET t == Time(b) IN
                   /\ cov[b][b][1][1] = RMul(steps[1].s2, RDiv(RMul(t, RMul(t, t)), Z(3)))
                   /\ cov[b][b][1][2] = RMul(steps[1].s2, RDiv(RMul(t, t), Z(2)))
+\* the transition matrices and noise covariances are those of ONE continuous-time process sampled at the grid points: two consecutive steps with
+\* the same parameters compose into the single step over the merged interval (so refining the grid does not change the covariance at the old points)
+RefineLaw == \A i \in 1..(k - 1) : (steps[i].s2 = steps[i + 1].s2 /\ steps[i].asp = steps[i + 1].asp) =>
+               LET a == steps[i]  b == steps[i + 1]
+                   m == [dt |-> RAdd(a.dt, b.dt), s2 |-> a.s2, asp |-> a.asp, rho |-> RMul(a.rho, b.rho)] IN
+               /\ MMul(F(b), F(a), D, D, D) = F(m)
+               /\ MAdd(MMul(MMul(F(b), Q(a), D, D, D), MT(F(b), D, D), D, D, D), Q(b), D, D) = Q(m)
 NonNegative == \A b \in 1..(k + 1) : \A i \in 1..D : ~RLt(cov[b][b][i][i], Z(0))
 \* vacuity witness (expected to be violated): a non-uniform grid with time-varying parameters is reached
 NeverVaries == ~(k >= 2 /\ steps[1].dt # steps[2].dt /\ steps[1].s2 # steps[2].s2)
